@@ -16,8 +16,21 @@ exactly, float values within an a-priori bound (see tol()).
 Python-side monitors: order independence (shuffled copy gives bit-identical
 index and NaN pattern, values within tolerance), caller's table unchanged,
 emsd(detail=False) equals the msd column of emsd(detail=True).
+
+Tie (route T).  tools/py2coq_msd.py re-translates the CURRENT text of
+trackpy/motion.py (msd, _msd_N, _msd_iter, _msd_gaps, _msd_fft, imsd, emsd) into
+coq/Gen/msd.v on every run, before the Coq build; Proofs/MSDGen.v proves the
+generated functions equal to Model/MSD.v for all inputs (msd, _msd_N, _msd_gaps,
+_msd_fft, imsd, emsd(detail=True)) and Properties/C17.v restates the C17 theorems
+for them (C17_gen_*).  A source that leaves the translatable subset, or whose translation
+no longer satisfies those proofs, is reported through chk.proof_broken; the
+correspondence run still takes place, so a concrete failing input is searched
+for as well.  (c) When the generated file compiles, the generated functions are
+also executed on the generated cases and compared exactly with the model
+(all of the ensembles, a sample of the single trajectories): redundant while the
+proofs hold, it yields a concrete input when a changed source breaks them.
 """
-import json
+import json, os, sys, hashlib
 import numpy as np
 import pandas as pd
 from fractions import Fraction
@@ -34,6 +47,86 @@ CODES = {0: 'ok', 1: 'implementation raised, model returns a table', 2: 'model r
          13: 'particle columns differ', 14: 'emsd is not the N-weighted mean over the contributing particles',
          15: 'ensemble N is not the sum of the weights of the contributing particles'}
 AX = ['x', 'y', 'z']
+
+TRANSLATOR = os.path.join(common.VERIF, 'tools', 'py2coq_msd.py')
+GEN = os.path.join(common.COQ, 'Gen', 'msd.v')
+IMPORTS_GEN = "From Coq Require Import Qcanon.\nFrom TP Require Import Model.MSD Model.MSDSpec Model.MSDCheck Model.PyMsd Model.MSDGen Gen.msd."
+GEN_CODES = {1: 'generated code (translated from the current source) raises where the model returns a table, or the other way round',
+             2: 'generated emsd (translated from the current source) returns another table than the model',
+             3: 'generated imsd (translated from the current source) returns another table than the model',
+             4: 'generated msd (translated from the current source) returns another table than the model'}
+STATE = {'gen_ok': False}
+
+
+# --------------------------------------------------------------------------
+# route T: translator / build
+# --------------------------------------------------------------------------
+def regenerate(chk):
+    """re-run the translator on the current source; returns (ok, text-or-log)"""
+    rc, out = common.sh([sys.executable, TRANSLATOR, '--repo', common.REPO, '--stdout'], timeout=60)
+    if rc != 0:
+        return False, out
+    with common.Lock(os.path.join(common.COQ, '.build.lock')):
+        old = open(GEN).read() if os.path.exists(GEN) else None
+        if old != out:
+            os.makedirs(os.path.dirname(GEN), exist_ok=True)
+            tmp = GEN + '.tmp%d' % os.getpid()
+            with open(tmp, 'w') as f:
+                f.write(out)
+            os.replace(tmp, GEN)
+            chk.tally('Gen/msd.v rewritten (source differs from last run)')
+        else:
+            chk.tally('Gen/msd.v unchanged')
+    return True, out
+
+
+def ensure(chk, files, report=True):
+    """compile the given files (in order) when their .vo is missing or stale; the executable model is needed by the
+    correspondence run even when the translation or a proof about the generated functions is broken"""
+    def fresh(v):
+        vo = os.path.join(common.COQ, v + 'o')
+        return os.path.exists(vo) and os.path.getmtime(vo) >= os.path.getmtime(os.path.join(common.COQ, v))
+    if all(fresh(v) for v in files):
+        return True
+    with common.Lock(os.path.join(common.COQ, '.build.lock')):
+        for v in files:
+            if fresh(v):
+                continue
+            rc, out = common.sh('timeout 300 coqc -Q . TP %s' % v, timeout=330, cwd=common.COQ)
+            if rc != 0:
+                if report:
+                    chk.proof_broken(v, out)
+                return False
+    return True
+
+
+def build(chk):
+    """translator -> cone of Properties/C17.v; returns True when the executable model is available"""
+    ok, text = regenerate(chk)
+    STATE['gen_ok'] = False
+    if not ok:
+        chk.proof_broken('translation tools/py2coq_msd.py (msd / _msd_N / _msd_iter / _msd_gaps / _msd_fft / imsd / emsd of trackpy/motion.py '
+                         'left the translatable subset)', text)
+        chk.build = dict(obligations=0, discharged=0, assumptions=[], files=[], theorems=[])
+    else:
+        for attempt in range(3):
+            b = chk.coq()
+            if open(GEN).read() == text:
+                break
+            # another run (different TRACKPY_REPO) rewrote the generated file in between: redo
+            chk.violations = [v for v in chk.violations if not v[0].startswith('proof:')]
+            regenerate(chk)
+        chk.notes.append('Gen/msd.v sha1 %s generated from %s' % (hashlib.sha1(text.encode()).hexdigest()[:12], common.REPO))
+        if not b['ok']:
+            with common.Lock(os.path.join(common.COQ, '.build.lock')):
+                rc, out = common.sh('timeout 600 make Proofs/MSDGen.vo 2>&1 | tail -25', timeout=630, cwd=common.COQ)
+            chk.notes.append('make Proofs/MSDGen.vo (generated functions = model): ' + out[-2500:])
+    have_model = ensure(chk, ('Model/MSD.v', 'Model/MSDSpec.v', 'Model/MSDCheck.v'))
+    if ok and have_model:
+        # the generated code itself is executable when it type-checks, whether or not the proofs about it still hold
+        STATE['gen_ok'] = ensure(chk, ('Model/PyMsd.v', 'Gen/msd.v', 'Model/MSDGen.v'), report=False) and open(GEN).read() == text
+    return have_model
+
 
 
 # --------------------------------------------------------------------------
@@ -318,6 +411,23 @@ def case_term(c, status, out):
 FUNC = "fun c : N => c"
 
 
+def gen_term(c):
+    """the generated function (Gen/msd.v) next to the model on the same input: exact comparison inside Coq"""
+    args = "(Q2Qc %s) (Q2Qc %s)" % (cQ(c['mpp']), cQ(c['fps']))
+    ml = cnat(min(c['max_lagtime'], 4000))
+    pc = "(Some (seq 0 %s))" % cnat(c['ndim'])
+    if c['kind'] == 'msd':
+        traj = "(map to_row %s)" % clist([crow(f, p) for f, p in c['rows']])
+        return ("cmp_gen_msd (seq 0 %s) true (py_msd %s %s (Z.of_nat %s) true %s) (msd %s %s %s %s)"
+                % (cnat(c['ndim']), traj, args, ml, pc, traj, args, ml, cnat(c['ndim'])))
+    traj = "(map to_prow %s)" % clist(["(%s, %s)" % (cZ(pid), crow(f, p)) for pid, f, p in c['rows']])
+    if c['kind'] == 'imsd':
+        return ("cmp_gen_imsd (py_imsd %s %s (Z.of_nat %s) LMsd %s) (imsd %s %s %s %s)"
+                % (traj, args, ml, pc, traj, args, ml, cnat(c['ndim'])))
+    return ("cmp_gen_emsd (py_emsd %s %s (Z.of_nat %s) true %s) (emsd %s %s %s %s)"
+            % (traj, args, ml, pc, traj, args, ml, cnat(c['ndim'])))
+
+
 def nontrivial(c):
     """non-trivial: at least 3 observations of some particle and at least 2 lags requested"""
     if c['kind'] == 'msd':
@@ -391,12 +501,41 @@ def run_cases(chk, cases, tag='cases'):
         if r != 0:
             chk.violation('%s:%s' % (jc['kind'], CODES.get(r, r)), '%s(mpp=%s, fps=%s, max_lagtime=%s) on %d rows [%s]: %s' % (
                 jc['kind'], jc['mpp'], jc['fps'], jc['max_lagtime'], len(jc['rows']), ','.join(jc['tags']), CODES.get(r, r)), dict(jc, code=r))
+    # (c) the generated functions next to the model: every ensemble, a sample of the single trajectories
+    if STATE['gen_ok']:
+        n_msd = 0
+        sel = []
+        for jc in kept:
+            if jc['kind'] == 'msd':
+                n_msd += 1
+                if n_msd > 60 and tag != 'replay' and not jc['tags'][0].startswith('corpus'):
+                    continue
+            if len(jc['rows']) > 60:
+                continue
+            sel.append(jc)
+        t0 = time.time()
+        try:
+            gres = common.coq_eval_lists(chk.work, IMPORTS_GEN, FUNC, [gen_term(jc) for jc in sel], shard=24, tag=tag + '_gen')
+        except RuntimeError as e:
+            chk.proof_broken('Gen/msd.v: the generated functions could not be executed', str(e))
+            gres = []
+        chk.coverage['coq_eval_gen_s'] = round(chk.coverage.get('coq_eval_gen_s', 0) + time.time() - t0, 1)
+        for jc, r in zip(sel, gres):
+            chk.tally('generated %s executed next to the model' % jc['kind'])
+            if r != 0:
+                chk.violation('generated %s: %s' % (jc['kind'], GEN_CODES.get(r, r)),
+                              'Gen/msd.v py_%s(mpp=%s, fps=%s, max_lagtime=%s) on %d rows [%s]: %s' % (
+                                  jc['kind'], jc['mpp'], jc['fps'], jc['max_lagtime'], len(jc['rows']), ','.join(jc['tags']), GEN_CODES.get(r, r)),
+                              dict(jc, gen_code=r))
+    elif tag != 'replay':
+        chk.tally('generated functions not executable (translation / build failed): generated-code comparison skipped')
     return kept
 
 
 def run(chk):
     common.quiet_trackpy()
-    chk.coq()
+    if not build(chk):
+        return
     rng = chk.rng
     quick = chk.tier == 'quick'
     cases = [dict(c) for c in CORPUS]
@@ -422,12 +561,18 @@ def run(chk):
         "pandas primitives by meaning: stable argsort, reindex (raises on duplicate labels), nanmean / groupby.mean skip NaN, sum(skipna=False), groupby('particle') ascending",
         "theorems assume: trajectory non-empty, frames distinct, at least one position column, no NaN coordinates; duplicated-frame inputs are covered by correspondence only",
         "_msd_N (Qian et al.) is taken as the definition of the weight N; not derived",
+        "route T: tools/py2coq_msd.py (trusted, fail-closed; subset, conventions and the list of numpy / pandas primitives in its docstring) and the "
+        "vocabulary Model/PyMsd.v (2-D arrays as lists of columns, tables with labelled columns, np.fft.fft/ifft as the exact circular autocorrelation "
+        "of the zero-padded signal, reindex / groupby / unstack / where / mul / div by their meaning) are trusted; generated = model is proved for msd, "
+        "_msd_N, _msd_gaps, _msd_fft, imsd and emsd(detail=True) (0 < number of position columns; emsd on the columns lagt, msd, N the model has); "
+        "emsd(detail=False) is translated but has no model counterpart",
     ]
 
 
 def replay(chk, path):
     common.quiet_trackpy()
-    chk.coq()
+    if not build(chk):
+        return
     r = json.load(open(path))['replay']
     if 'rows' not in r:
         print('replay: nothing executable in this replay file (proof/correspondence breakage): see its log field')
